@@ -529,16 +529,11 @@ Vec3_<T> Matrix4_<T>::eulerAngles(int a0, int a1, int a2) const
 		T s = (a1 - a0 + 3) % 3 == 1 ? -1.0f : 1.0f;
 		T c = sqrt(at(a0, a0) * at(a0, a0) + at(a0, a1) * at(a0, a1));
 		r1 = atan2(-s * at(a0, a2), c);
-		if (c > lim)
-		{
-			r2 = atan2(s * at(a1, a2), at(a2, a2));
-			r0 = atan2(s * at(a0, a1), at(a0, a0));
-		}
-		else
-		{
-			r2 = at(a0, a2) * atan2(-s * at(a1, a0), at(a1, a1));
-			r0 = 0;
-		}
+		r0 = (c > lim) ? atan2(s * at(a0, a1), at(a0, a0)) : T(0);
+		// the first angle is read after removing the last rotation, from elements of size one:
+		// near gimbal lock the error of r0 (its two elements are small) is then compensated by r2
+		Matrix4_ m = *this * rotate(a2, -r0);
+		r2 = atan2(-s * m(a2, a1), m(a1, a1));
 		return Vec3_<T>(r2, r1, r0);
 	}
 	else
@@ -547,16 +542,9 @@ Vec3_<T> Matrix4_<T>::eulerAngles(int a0, int a1, int a2) const
 		T s = (a1 - a0 + 3) % 3 == 2 ? -1.0f : 1.0f;
 		T c = sqrt(at(a1, a0) * at(a1, a0) + at(k, a0) * at(k, a0));
 		r1 = atan2(c, at(a0, a0));
-		if (c > lim)
-		{
-			r2 = atan2(at(a1, a0), -s * at(k, a0));
-			r0 = atan2(at(a0, a1), s * at(a0, k));
-		}
-		else
-		{
-			r2 = at(a0, a0) * atan2(-s * at(a1, k), at(a1, a1));
-			r0 = 0;
-		}
+		r0 = (c > lim) ? atan2(at(a0, a1), s * at(a0, k)) : T(0);
+		Matrix4_ m = *this * rotate(a0, -r0);
+		r2 = atan2(s * m(k, a1), m(a1, a1));
 	}
 	return Vec3_<T>(r2, r1, r0);
 }
